@@ -52,6 +52,55 @@ def replay_prefix(spec, cfg, ops):
     return m, n
 
 
+def examine(spec: Spec, cfg: dict, how: str, hist, cont):
+    """the property's oracle on one checkpoint: `hist` is replayed on a fresh instance, the object is copied by `how`,
+    `cont` is applied to copy and original.  None when the property holds, else (signature, what, replay dict).
+    Used by the sweep and by replay()."""
+    return _examine(spec, cfg, how, hist, cont)[0]
+
+
+def _examine(spec: Spec, cfg: dict, how: str, hist, cont):
+    """(verdict, number of successful updates in `hist`)."""
+    orig, nupd = replay_prefix(spec, cfg, hist)
+
+    def bad(sig, what, **extra):
+        return (sig, what, {"class": spec.name, "cfg": public_cfg(cfg), "how": how, "history": describe_ops(hist),
+                            "continuation": describe_ops(cont), **extra}), nupd
+    # state_dict() must not alias live state
+    before = snapshot(orig)
+    sd = orig.state_dict()
+    for v in sd.values():
+        ts = [v] if isinstance(v, torch.Tensor) else (list(v) if isinstance(v, list) else (list(v.values()) if isinstance(v, dict) else []))
+        for t in ts:
+            if t.numel() and t.dtype != torch.bool:
+                t.add_(1)
+    if not snap_equal(before, snapshot(orig)):
+        return bad(f"C09|{spec.name}|state_dict-aliases-live-state", f"{spec.name}: mutating the tensors returned by state_dict() changed the metric",
+                   check="state_dict-alias")
+    try:
+        cp = make_copy(how, orig, spec, cfg)
+    except Exception as e:  # noqa: BLE001
+        return bad(f"C09|{spec.name}|{how}|copy-raises", f"{spec.name}: {how} raised {e!r}", check="copy")
+    o0, c0 = observe(orig), observe(cp)
+    if not same_obs(o0, c0, 0.0 if how != "load_state_dict" else 0.0):
+        return bad(f"C09|{spec.name}|{how}|differs-after-restore",
+                   f"{spec.name}{public_cfg(cfg)}: compute() right after {how}: original {obs_json(o0)}, copy {obs_json(c0)}",
+                   check="compute-after-restore")
+    # independence: run the continuation on the copy first, the original must not move
+    before = snapshot(orig)
+    cres = [apply_op(cp, op, spec, cfg) for op in cont]
+    if not snap_equal(before, snapshot(orig)):
+        return bad(f"C09|{spec.name}|{how}|copy-not-independent", f"{spec.name}: operating on the {how} copy changed the original",
+                   check="independence")
+    for k, op in enumerate(cont):
+        ro = apply_op(orig, op, spec, cfg)
+        if not same_step(ro, cres[k], 0.0):
+            return bad(f"C09|{spec.name}|{how}|differs-after-restore",
+                       f"{spec.name}{public_cfg(cfg)}: step {k} of the continuation after {how}: original {ro if ro[0] != 'o' else obs_json(ro[1])}, copy {cres[k] if cres[k][0] != 'o' else obs_json(cres[k][1])}",
+                       check="continuation", failed_step=k)
+    return None, nupd
+
+
 def one(rep: Report, rng: Rng, spec: Spec, cfg0: dict, all_prefixes: bool):
     cfg = fresh_cfg(cfg0)
     win = cfg.get("max_num_updates") or cfg.get("max_num_samples") or 0
@@ -60,45 +109,13 @@ def one(rep: Report, rng: Rng, spec: Spec, cfg0: dict, all_prefixes: bool):
     positions = list(range(len(ops) + 1)) if all_prefixes else sorted(set(rng.sample(range(len(ops) + 1), min(2, len(ops) + 1))))
     for p in positions:
         how = rng.choice(HOW) if not all_prefixes else HOW[p % 4]
-        orig, nupd = replay_prefix(spec, cfg, ops[:p])
+        v, nupd = _examine(spec, cfg, how, ops[:p], cont)
         rep.count(f"how:{how}"); rep.count(f"class:{spec.name}")
         rep.case(nontrivial_key=(spec.name, repr(public_cfg(cfg)), how, ckey(ops[:p]), ckey(cont)) if nupd else None,
                  sample={"class": spec.name, "cfg": public_cfg(cfg), "checkpoint_after": p, "how": how, "continuation": len(cont)} if rep.evaluations % 503 == 0 else None)
-        ctx = {"class": spec.name, "cfg": public_cfg(cfg), "how": how, "history": describe_ops(ops[:p])}
-        # state_dict() must not alias live state
-        before = snapshot(orig)
-        sd = orig.state_dict()
-        for v in sd.values():
-            ts = [v] if isinstance(v, torch.Tensor) else (list(v) if isinstance(v, list) else (list(v.values()) if isinstance(v, dict) else []))
-            for t in ts:
-                if t.numel() and t.dtype != torch.bool:
-                    t.add_(1)
-        if not snap_equal(before, snapshot(orig)):
-            rep.violation(f"C09|{spec.name}|state_dict-aliases-live-state", f"{spec.name}: mutating the tensors returned by state_dict() changed the metric", ctx)
+        if v is not None:
+            rep.violation(*v)
             return
-        try:
-            cp = make_copy(how, orig, spec, cfg)
-        except Exception as e:  # noqa: BLE001
-            rep.violation(f"C09|{spec.name}|{how}|copy-raises", f"{spec.name}: {how} raised {e!r}", ctx)
-            return
-        o0, c0 = observe(orig), observe(cp)
-        if not same_obs(o0, c0, 0.0 if how != "load_state_dict" else 0.0):
-            rep.violation(f"C09|{spec.name}|{how}|differs-after-restore",
-                          f"{spec.name}{public_cfg(cfg)}: compute() right after {how}: original {obs_json(o0)}, copy {obs_json(c0)}", ctx)
-            return
-        # independence: run the continuation on the copy first, the original must not move
-        before = snapshot(orig)
-        cres = [apply_op(cp, op, spec, cfg) for op in cont]
-        if not snap_equal(before, snapshot(orig)):
-            rep.violation(f"C09|{spec.name}|{how}|copy-not-independent", f"{spec.name}: operating on the {how} copy changed the original", {**ctx, "continuation": describe_ops(cont)})
-            return
-        for k, op in enumerate(cont):
-            ro = apply_op(orig, op, spec, cfg)
-            if not same_step(ro, cres[k], 0.0):
-                rep.violation(f"C09|{spec.name}|{how}|differs-after-restore",
-                              f"{spec.name}{public_cfg(cfg)}: step {k} of the continuation after {how}: original {ro if ro[0] != 'o' else obs_json(ro[1])}, copy {cres[k] if cres[k][0] != 'o' else obs_json(cres[k][1])}",
-                              {**ctx, "continuation": describe_ops(cont[:k + 1])})
-                return
 
 
 def sweep(rep, rng, reps, deadline, all_prefixes):
@@ -116,3 +133,35 @@ def run(rep: Report):
 
 def search(rep: Report):
     sweep(rep, Rng(rep.seed * 7 + 909), 10, time.time() + 120, True)
+
+
+# ------------------------------------------------------------------ replay
+
+def ops_from_describe(lst):
+    """inverse of hist.describe_ops (also after a JSON round trip)."""
+    from ..registry import Batch
+    out = []
+    for op in lst:
+        if op[0] == "u":
+            out.append(("u", Batch.from_describe(op[1])))
+        elif op[0] == "m":
+            out.append(("m", [[Batch.from_describe(b) for b in bl] for bl in op[1]]))
+        else:
+            out.append((op[0],))
+    return out
+
+
+def replay(payload) -> bool:
+    """True iff the property holds on the recorded checkpoint: history, copy method and continuation are rebuilt and judged
+    by `examine` (the sweep's oracle: the original object against its copy, step by step)."""
+    rp = payload.get("replay") or {}
+    if payload.get("kind", "failing-input") != "failing-input" or not {"class", "cfg", "how", "history"} <= set(rp):
+        raise ValueError(f"nothing to replay: payload kind {payload.get('kind')!r} carries no checkpoint (class, cfg, how, history)")
+    from ..registry import BY_NAME
+    spec = BY_NAME[rp["class"]]
+    if rp["how"] not in HOW:
+        raise ValueError(f"nothing to replay: unknown copy method {rp['how']!r}")
+    v = examine(spec, dict(rp["cfg"]), rp["how"], ops_from_describe(rp["history"]), ops_from_describe(rp.get("continuation") or []))
+    if v is not None:
+        print(f"replay: {v[0]}: {v[1]}"[:600])
+    return v is None
